@@ -389,6 +389,10 @@ func runC04(c *ctxT) {
 	}
 	for i := 0; i < c.scale(3, 12); i++ {
 		quicChainAdversary(c, i)
+		sshQueryAdversary(c, i)
+	}
+	for i := 0; i < c.scale(6, 30); i++ {
+		keClaimAdversary(c, i)
 	}
 	for i := 0; i < n; i++ {
 		r := c.rng.Fork()
